@@ -494,6 +494,8 @@ class _ScriptedCodec:
             raise UnicodeEncodeError('x-verif-scripted', text, 0, max(len(text), 1), 'character maps to <undefined>')
         if o == 'i':
             raise UnicodeEncodeError('x-verif-scripted', text, 0, max(len(text), 1), 'iconv: conversion failed')
+        if o == 'u':
+            raise UnicodeError('label empty or too long')
         raise ValueError('scripted crash')
     @classmethod
     def decode(cls, data, errors='strict'):
@@ -576,6 +578,8 @@ def enc_outcome(text, enc):
         text.encode(enc)
     except UnicodeEncodeError as exc:
         return 'i' if str(exc.reason).startswith('iconv:') else 'e'
+    except UnicodeError:
+        return 'e'              # cannot be encoded, said without a position (idna)
     except Exception:
         return 'c'
     return 'o'
@@ -622,7 +626,19 @@ def parse_lang(s):
     except Exception:
         return None
 
+def lenient_encode(text, enc):
+    """what of `text` Python's own codecs can encode, character by character (sample material for the iconv binding)"""
+    out = b''
+    for c in text:
+        try:
+            out += c.encode(enc)
+        except Exception:
+            pass
+    return out
+
 # ------------------------------------------------------------------ correspondence streams
+
+CORPUS_BYTES = []
 
 REAL_LOOP_ENCODINGS = ['EUC-TW', 'KOI8-T', 'KOI8-RU', 'VISCII', 'GEORGIAN-PS', 'UTF-8', 'EUC-JP', 'SHIFT_JIS', 'GB18030', 'BIG5',
                        'ISO-2022-JP', 'ISO-2022-KR', 'UTF-16', 'UTF-7', 'ISO-8859-1', 'CP1252']
@@ -696,7 +712,7 @@ def build_streams(chk, names, sizes):
             table = open(os.path.join(common.REPO, 'data', 'charmaps', f), 'rb').read().decode('UTF-8')
         except Exception:
             table = ''
-        for b in G.byte_strings_single(rng, sizes['charmap_bytes']):
+        for b in [x for c, x in CORPUS_BYTES if c == f] + G.byte_strings_single(rng, sizes['charmap_bytes']):
             lines.append(f'charset cmdecode {hexchars(f)} {hexbytes(b)}'); outs.append(impl_cmdecode(f, b))
         for t in G.texts(rng, table, sizes['charmap_texts']):
             lines.append(f'charset cmencode {hexchars(f)} {hexchars(t)}'); outs.append(impl_cmencode(f, t))
@@ -721,7 +737,7 @@ def build_streams(chk, names, sizes):
                 else G.byte_strings_single(rng, sizes['real_loop'])
             if enc not in G.EXTRA_CODECS:
                 pool = rng.sample(pool, min(len(pool), sizes['real_loop']))
-                pool += [t.encode(enc, 'ignore') for t in ('日本語のテキスト', 'abc' * 50, '한국어', '€uro', 'żółć', '中文' * 40)]
+                pool += [lenient_encode(t, enc) for t in ('日本語のテキスト', 'abc' * 50, '한국어', '€uro', 'żółć', '中文' * 40)]
             for b in pool:
                 if not b:
                     continue
@@ -755,10 +771,12 @@ def build_streams(chk, names, sizes):
         if len(set(chars)) == 1 and len(chars) == 1:
             joined = per[0]
         else:
-            joined = 'o' if set(per) == {'o'} and rng.random() < 0.9 else rng.choice('eeeeoic')
+            joined = 'o' if set(per) == {'o'} and rng.random() < 0.9 else rng.choice('eeeeuoic')
             if ''.join(chars) in first:
                 joined = first[''.join(chars)]
-        lines.append(f'charset unrep {joined} {per} {",".join(hexchars(c) for c in chars)}'); outs.append(impl_unrep(chars, joined, per))
+        # 'u' = a plain UnicodeError (no position, no reason): for the model it is an encode error like 'e'
+        lines.append(f'charset unrep {joined.replace("u", "e")} {per.replace("u", "e")} {",".join(hexchars(c) for c in chars)}')
+        outs.append(impl_unrep(chars, joined, per))
     fam['characters'] = (lines, outs)
     # ---- the charset fragment of check_headers
     lines, outs = [], []
@@ -793,3 +811,360 @@ def run_streams(chk, fam):
         d, model = chk.stream('charset-' + name, lines, outs)
         dis[name] = [(lines[i], outs[i], model[i]) for i in d]
     return dis
+
+# ------------------------------------------------------------------ the falsifier: the property itself on the real code
+
+class Cex(list):
+    """counterexamples, one per key (further hits of a key are only counted)"""
+    def __init__(self):
+        super().__init__()
+        self.hits = collections.Counter()
+    def append(self, c):
+        self.hits[c['key']] += 1
+        if self.hits[c['key']] == 1:
+            super().append(c)
+
+KEY_KOI8T = 'portable:KOI8-T:data-says-not-python-but-python-ships-koi8_t'
+KEY_EUCTW = 'roundtrip:EUC-TW:plane-1-four-byte-form-8EA1'
+
+def ref_normalise(name):
+    e = ''.join(chr(ord(c) + 32) if 'A' <= c <= 'Z' else c for c in name)
+    return 'iso-' + e[4:] if e.startswith('iso_') else e
+
+_GETTEXT = {n.lower(): n for n in G.GETTEXT_PORTABLE}
+
+def decode_outcome(data, name):
+    try:
+        return ('ok', data.decode(name))
+    except UnicodeDecodeError as exc:
+        return ('ude', exc.start, exc.end)
+    except Exception as exc:
+        return ('exc', type(exc).__name__)
+
+def probe_bytes(rng, n=160):
+    out = [bytes([b]) for b in range(256)]
+    for _ in range(n):
+        k = rng.choice([2, 2, 3, 4, 6, 9, 17])
+        mode = rng.randrange(3)
+        out.append(bytes((rng.randrange(256) if mode == 0 else rng.randrange(128, 256) if mode == 1
+                          else rng.choice([rng.randrange(32, 127), rng.randrange(0x81, 0xFF)])) for _ in range(k)))
+    return out
+
+def falsify_classification(chk, names, ships):
+    """ascii-compatible / unknown / portable / proposal laws, for every name, against references of the harness's own"""
+    E = mods()[0]
+    cex = Cex()
+    ident = G.ASCII_REPERTOIRE.decode('ascii')
+    probes = probe_bytes(chk.rng)
+    stats = collections.Counter()
+    cache = {}
+    for n in names:
+        # -- ASCII-compatible iff decoding the ASCII repertoire yields the same characters
+        a = impl_ascii(1, n)
+        ref_a = '1' if dec_outcome(n)[1] == ident else '0'
+        stats['ascii=' + a] += 1
+        if a != ref_a:
+            cex.append({'kind': 'ascii-compatible', 'key': 'ascii:' + n, 'name': n, 'observed': a, 'expected': ref_a,
+                        'replay': f'lib.encodings.is_ascii_compatible_encoding({n!r})'})
+        # -- unknown iff no usable text codec exists
+        u = impl_ascii(0, n)
+        ref_u = not usable_text_codec(n)
+        stats['unknown=' + str(u == 'ELE')] += 1
+        if (u == 'ELE') != ref_u or u.startswith('CRASH'):
+            cex.append({'kind': 'unknown-encoding', 'key': 'unknown:' + n, 'name': n, 'observed': u, 'expected': 'ELE' if ref_u else 'a bool',
+                        'replay': f'lib.encodings.is_ascii_compatible_encoding({n!r}, missing_ok=False)'})
+        # -- portable iff gettext lists it and Python ships a codec for it
+        p = impl_portable(1, n)
+        listed = _GETTEXT.get(ref_normalise(n))
+        ref_p = '1' if (listed is not None and ships.get(listed, False)) else '0'
+        stats['portable=' + p] += 1
+        if p != ref_p:
+            key = KEY_KOI8T if listed == 'KOI8-T' and p == '0' else 'portable:' + n
+            cex.append({'kind': 'portable', 'key': key, 'name': n, 'observed': p, 'expected': ref_p, 'gettext_lists': listed,
+                        'python_ships': ships.get(listed), 'replay': f'lib.encodings.is_portable_encoding({n!r})'})
+        p0 = impl_portable(0, n)
+        if p0 != ('1' if listed is not None else '0'):
+            cex.append({'kind': 'portable(python=False)', 'key': 'portable0:' + n, 'name': n, 'observed': p0, 'gettext_lists': listed,
+                        'replay': f'lib.encodings.is_portable_encoding({n!r}, python=False)'})
+        # -- a proposed replacement is portable and decodes every byte sequence exactly as the original name does
+        q = impl_propose(n)
+        if q.startswith('CRASH') or q == 'assert':
+            cex.append({'kind': 'proposal-crash', 'key': 'propose-crash:' + n, 'name': n, 'observed': q,
+                        'replay': f'lib.encodings.propose_portable_encoding({n!r})'})
+        elif q != 'none':
+            stats['proposal'] += 1
+            try:
+                prop = E.propose_portable_encoding(n)
+            except Exception:
+                continue
+            if impl_portable(1, prop) != '1':
+                cex.append({'kind': 'proposal-not-portable', 'key': 'propose-portable:' + n, 'name': n, 'proposal': prop,
+                            'replay': f'lib.encodings.is_portable_encoding(lib.encodings.propose_portable_encoding({n!r}))'})
+            for b in probes:
+                kq = (prop, b)
+                if kq not in cache:
+                    cache[kq] = decode_outcome(b, prop)
+                if decode_outcome(b, n) != cache[kq]:
+                    cex.append({'kind': 'proposal-decodes-differently', 'key': 'propose-decode:' + n, 'name': n, 'proposal': prop,
+                                'bytes': b.hex(), 'original': repr(decode_outcome(b, n)), 'replacement': repr(cache[kq]),
+                                'replay': f'bytes.fromhex({b.hex()!r}).decode({n!r}) vs .decode({prop!r}) after install_extra_encodings()'})
+                    break
+        if len(cex) > 40:
+            break
+    chk.coverage.setdefault('falsifier', {})['classification'] = dict(stats)
+    return cex
+
+def codec_objects():
+    """the extra codecs as reached through bytes.decode/str.encode, plus the tool's own KOI8-T object (shadowed by Python's koi8_t)"""
+    E = mods()[0]
+    objs = []
+    for name in G.EXTRA_CODECS:
+        objs.append((name, name, (lambda b, name=name: b.decode(name)), (lambda s, name=name: s.encode(name))))
+    try:
+        ci = E._codec_search_function('koi8_t')
+        if ci is not None:
+            objs.append(('KOI8-T', 'KOI8-T(tool)', (lambda b, ci=ci: ci.decode(b)[0]), (lambda s, ci=ci: ci.encode(s)[0])))
+    except Exception:
+        pass
+    return objs
+
+def falsify_codecs(chk, sizes):
+    """total, round-trips, agrees with the system iconv — for the five extra codecs"""
+    rng = chk.rng
+    R = ref()
+    cex = Cex()
+    stats = collections.Counter()
+    cli_budget = sizes.get('cli', 12)
+    for name, label, dec, enc in codec_objects():
+        if name == 'EUC-TW':
+            inputs = G.byte_strings_euctw(rng, sizes['codec_bytes'], exhaustive2=sizes.get('exhaustive'),
+                                          plane_sample=sizes['codec_bytes'] * (40 if sizes.get('exhaustive') else 1))
+        else:
+            inputs = G.byte_strings_single(rng, sizes['codec_bytes'])
+        inputs = [x for c, x in CORPUS_BYTES if c == name] + inputs
+        repertoire = set()
+        for b in inputs:
+            n = len(b)
+            try:
+                t = dec(b)
+                stats[label + ':decoded'] += 1
+            except UnicodeDecodeError as exc:
+                stats[label + ':UnicodeDecodeError'] += 1
+                t = None
+                if not span_ok(exc, n):
+                    cex.append({'kind': 'decode-error-span', 'key': f'span:{name}', 'codec': label, 'bytes': b.hex(),
+                                'observed': f'start={exc.start} end={exc.end} len={n}', 'replay': f'bytes.fromhex({b.hex()!r}).decode({name!r})'})
+            except Exception as exc:
+                t = None
+                cex.append({'kind': 'decode-crash', 'key': f'crash:{name}:{type(exc).__name__}', 'codec': label, 'bytes': b.hex(),
+                            'observed': f'{type(exc).__name__}: {exc}', 'replay': f'bytes.fromhex({b.hex()!r}).decode({name!r})'})
+            if t is not None and not isinstance(t, str):
+                cex.append({'kind': 'decode-not-str', 'key': f'type:{name}', 'codec': label, 'bytes': b.hex(), 'observed': repr(t)[:80]})
+                t = None
+            r = R.decode(name, b)
+            if r[0] != 'unavailable':
+                stats[label + ':vs-iconv'] += 1
+                if (r[0] == 'ok') != (t is not None) or (t is not None and r[1] != t):
+                    cex.append({'kind': 'decode-differs-from-iconv', 'key': f'iconv:{name}', 'codec': label, 'bytes': b.hex(),
+                                'observed': repr(t), 'iconv': repr(r), 'replay': f'bytes.fromhex({b.hex()!r}).decode({name!r}) vs iconv -f {name} -t UTF-8'})
+            if t is not None:
+                repertoire.update(t)
+                try:
+                    back = enc(t)
+                except Exception as exc:
+                    back = f'{type(exc).__name__}: {exc}'
+                if back != b:
+                    key = KEY_EUCTW if name == 'EUC-TW' and b'\x8e\xa1' in b else f'roundtrip:{name}'
+                    cex.append({'kind': 'roundtrip', 'key': key, 'codec': label, 'bytes': b.hex(), 'decoded': t,
+                                'encoded_back': back.hex() if isinstance(back, bytes) else back,
+                                'replay': f'bytes.fromhex({b.hex()!r}).decode({name!r}).encode({name!r})'})
+                if cli_budget > 0 and n and rng.random() < 0.02:
+                    cli_budget -= 1
+                    out, failed = iconv_cli(name, 'UTF-8', b)
+                    stats['iconv(1) runs'] += 1
+                    if failed or out.decode('utf-8', 'replace') != t:
+                        cex.append({'kind': 'decode-differs-from-iconv(1)', 'key': f'iconv1:{name}', 'codec': label, 'bytes': b.hex(),
+                                    'observed': t, 'iconv': out.hex()})
+            if len(cex) > 30:
+                break
+        for s in G.texts(rng, sorted(repertoire), sizes['codec_texts']):
+            try:
+                b = enc(s)
+                stats[label + ':encoded'] += 1
+            except UnicodeEncodeError as exc:
+                stats[label + ':UnicodeEncodeError'] += 1
+                b = None
+                if not span_ok(exc, len(s)):
+                    cex.append({'kind': 'encode-error-span', 'key': f'span:{name}', 'codec': label, 'text': hexchars(s),
+                                'observed': f'start={exc.start} end={exc.end} len={len(s)}'})
+            except Exception as exc:
+                b = None
+                cex.append({'kind': 'encode-crash', 'key': f'crash:{name}:{type(exc).__name__}', 'codec': label, 'text': hexchars(s),
+                            'observed': f'{type(exc).__name__}: {exc}', 'replay': f'{s!r}.encode({name!r})'})
+            if b is not None and not isinstance(b, bytes):
+                cex.append({'kind': 'encode-not-bytes', 'key': f'type:{name}', 'codec': label, 'text': hexchars(s)})
+                continue
+            r = R.encode(name, s)
+            if r[0] != 'unavailable' and s:
+                if (r[0] == 'ok') != (b is not None) or (b is not None and r[1] != b):
+                    cex.append({'kind': 'encode-differs-from-iconv', 'key': f'iconv:{name}', 'codec': label, 'text': hexchars(s),
+                                'observed': None if b is None else b.hex(), 'iconv': repr(r)})
+            if len(cex) > 30:
+                break
+    chk.coverage.setdefault('falsifier', {})['codecs'] = dict(stats)
+    return cex
+
+def falsify_loop(chk, sizes):
+    """the binding itself: never tells iconv more than it allocated; under an honest iconv returns exactly what was produced;
+    error spans lie inside the input; with the real iconv agrees with an independent conversion"""
+    rng = chk.rng
+    I = mods()[1]
+    cex = Cex()
+    stats = collections.Counter()
+    for decode in (True, False):
+        for n, rounds in G.iconv_scripts(rng, sizes['loop_scripts'], decode=decode):
+            if decode:
+                data = bytes(rng.randrange(256) for _ in range(n))
+                out, s = impl_decloop(data, rounds)
+            else:
+                data = ''.join(rng.choice('ab€ж中') for _ in range(n))
+                out, s = impl_encloop(data, rounds)
+            stats[out.split(' ')[0]] += 1
+            what = f"lib.iconv.{'decode' if decode else 'encode'} under the scripted iconv {script_text(rounds)[:300]}"
+            if s.overrun is not None:
+                cex.append({'kind': 'told-more-than-allocated', 'key': 'loop:overrun', 'observed': f'allocated {s.overrun[0]} told {s.overrun[1]}',
+                            'input_len': n, 'replay': what})
+            head = out.split(' trace=')[0]
+            if head.startswith('uerr'):
+                _, a, b = head.split(' ')
+                last = rounds[min(s.k, len(rounds) - 1)]
+                honest = last[2][1] < (n if decode else 4 * n) and (decode or last[2][1] % 4 == 0)
+                if honest and not (0 <= int(a) < int(b) <= n):
+                    cex.append({'kind': 'loop-error-span', 'key': 'loop:span', 'observed': head, 'input_len': n, 'replay': what})
+            if head.startswith('ok'):
+                last = rounds[min(s.k, len(rounds) - 1)]
+                produced = last[2][2] + last[3][2]
+                if decode:
+                    exp = 'ok ' + hexchars(produced.decode('utf-32-le', 'surrogatepass')) if len(produced) % 4 == 0 else None
+                else:
+                    exp = 'ok ' + hexbytes(produced)
+                if exp is not None and head != exp:
+                    cex.append({'kind': 'loop-result-is-not-what-iconv-produced', 'key': 'loop:prefix', 'observed': head[:200], 'expected': exp[:200],
+                                'replay': what})
+            if head.startswith('CRASH'):
+                cex.append({'kind': 'loop-crash', 'key': 'loop:' + head, 'observed': head, 'replay': what})
+            if len(cex) > 20:
+                return cex
+    R = ref()
+    if R.ok:
+        for enc in REAL_LOOP_ENCODINGS:
+            if R.cd('UTF-32LE', enc) is None:
+                continue
+            pool = G.byte_strings_euctw(rng, sizes['loop_real'], plane_sample=sizes['loop_real']) if enc == 'EUC-TW' \
+                else G.byte_strings_single(rng, sizes['loop_real'])
+            pool = [b for b in rng.sample(pool, min(len(pool), sizes['loop_real'] * 3)) if b]
+            pool += [lenient_encode(t, enc) * k for t in ('日本語のテキスト', '한국어', '€uro żółć', '中文') for k in (1, 7, 40)]
+            for b in pool:
+                if not b:
+                    continue
+                out, s = impl_real_decode(enc, b)
+                head = out.split(' trace=')[0]
+                r = R.decode(enc, b)
+                stats['real:' + head.split(' ')[0]] += 1
+                exp_ok = r[0] == 'ok'
+                if s.overrun is not None:
+                    cex.append({'kind': 'told-more-than-allocated', 'key': 'loop:overrun', 'observed': str(s.overrun), 'encoding': enc, 'bytes': b.hex(),
+                                'replay': f'lib.iconv.decode(bytes.fromhex({b.hex()!r}), encoding={enc!r})'})
+                if head.startswith('ok') != exp_ok or (exp_ok and head != 'ok ' + hexchars(r[1])):
+                    cex.append({'kind': 'binding-differs-from-iconv', 'key': f'loop:real:{enc}', 'encoding': enc, 'bytes': b.hex(), 'observed': head[:200],
+                                'iconv': repr(r)[:200], 'replay': f'lib.iconv.decode(bytes.fromhex({b.hex()!r}), encoding={enc!r})'})
+                elif head.startswith('uerr'):
+                    _, a, e = head.split(' ')
+                    if not (0 <= int(a) < int(e) <= len(b)) or int(a) != r[1]:
+                        cex.append({'kind': 'loop-error-span', 'key': 'loop:span', 'encoding': enc, 'bytes': b.hex(), 'observed': head,
+                                    'iconv_stopped_at': r[1], 'replay': f'lib.iconv.decode(bytes.fromhex({b.hex()!r}), encoding={enc!r})'})
+                elif not head.startswith('ok'):
+                    cex.append({'kind': 'binding-crash', 'key': 'loop:' + head.split(' ')[0], 'encoding': enc, 'bytes': b.hex(), 'observed': head})
+                if len(cex) > 20:
+                    return cex
+    chk.coverage.setdefault('falsifier', {})['iconv-binding'] = dict(stats)
+    return cex
+
+def falsify_unrepresentable(chk, charsets, sizes):
+    """tag <=> some listed non-optional character cannot be encoded — every language with a list x the given charsets"""
+    E, I, L = mods()
+    cex = Cex()
+    stats = collections.Counter()
+    sects = language_sections()
+    langs = sorted({l + ('@' + m if m else '') for l, m, _ in sects})
+    extra = ['de_AT', 'pt_PT', 'sr_RS@latin', 'zh_SG', 'en_US', 'xx', 'de@euro']
+    for lang_str in langs + extra:
+        language = parse_lang(lang_str)
+        if language is None:
+            continue
+        chars = reference_characters(lang_str)
+        for cs in charsets:
+            if chars is None:
+                expected = None
+            else:
+                expected = [c for c in chars if enc_outcome(c, cs) != 'o']
+            try:
+                got = language.get_unrepresentable_characters(cs)
+            except Exception as exc:
+                got = f'{type(exc).__name__}: {exc}'
+            stats['none' if got is None else 'crash' if isinstance(got, str) else 'some' if got else 'empty'] += 1
+            if got != expected:
+                if isinstance(got, str):
+                    key = f'unrepresentable:crash:{type(got).__name__}:{cs}'
+                    key = f'unrepresentable:crash:{got.split(":")[0]}:{cs}'
+                else:
+                    key = f'unrepresentable:{lang_str}:{cs}'
+                cex.append({'kind': 'unrepresentable-characters', 'key': key, 'language': lang_str, 'charset': cs,
+                            'observed': got if isinstance(got, str) else None if got is None else [hexchars(c) for c in got],
+                            'expected': None if expected is None else [hexchars(c) for c in expected],
+                            'replay': f'lib.ling.parse_language({lang_str!r}).get_unrepresentable_characters({cs!r})'})
+                if len(cex) > 10:
+                    return cex
+    # through check_mime: the tag itself
+    sample = [(l, c) for l in chk.rng.sample(langs, min(len(langs), sizes['unrep_e2e'])) for c in chk.rng.sample(charsets, min(3, len(charsets)))]
+    for lang_str, cs in sample:
+        language = parse_lang(lang_str)
+        chars = reference_characters(lang_str)
+        out, calls = impl_check(cs, 0, language)
+        if calls is None:
+            cex.append({'kind': 'check_mime-crash', 'key': f'check-crash:{cs}', 'language': lang_str, 'charset': cs})
+            continue
+        reported = [extra for tag, extra in calls if tag == 'unrepresentable-characters']
+        kept = out.split(' enc=')[-1]
+        if kept == '~':
+            continue
+        final = ''.join(chr(int(x, 16)) for x in kept.split('.')) if kept != '-' else ''
+        expected = [c for c in (chars or []) if enc_outcome(c, final) != 'o']
+        stats['e2e:' + ('tag' if reported else 'no-tag')] += 1
+        if bool(reported) != bool(expected):
+            cex.append({'kind': 'unrepresentable-characters tag', 'key': f'unrepresentable-tag:{lang_str}:{cs}', 'language': lang_str, 'charset': cs,
+                        'observed': repr(reported)[:200], 'expected': [hexchars(c) for c in expected][:10]})
+    chk.coverage.setdefault('falsifier', {})['unrepresentable'] = dict(stats)
+    return cex
+
+def corpus_inputs():
+    """corpus/C20: inputs that once disagreed or falsified, replayed first on every run.
+    names.txt: one JSON string per line; bytes.txt: `<CODEC> <hex>` per line"""
+    d = os.path.join(common.VERIF, 'corpus', 'C20')
+    names, data = [], []
+    try:
+        for raw in open(os.path.join(d, 'names.txt'), encoding='utf-8'):
+            raw = raw.strip()
+            if raw and not raw.startswith('#'):
+                names.append(json.loads(raw))
+    except OSError:
+        pass
+    try:
+        for raw in open(os.path.join(d, 'bytes.txt'), encoding='utf-8'):
+            raw = raw.strip()
+            if raw and not raw.startswith('#'):
+                c, h = raw.split()
+                data.append((c, bytes.fromhex(h)))
+    except OSError:
+        pass
+    return names, data
